@@ -277,7 +277,8 @@ def r15_6(ctx):
             ctx.require(g.cls is not None and g.cls.name == "Multicast", f"{attr}:writer:{g.short}", f"{attr} modified in {g.short} ({kind})", func=g, node=n)
     es, sl = statuses(ctx)
     dev = "bellows.zigbee.device"
-    for meth, call in (("add_to_group", "app.multicast.subscribe"), ("remove_from_group", "app.multicast.unsubscribe")):
+    # the calls are identified by the value they are made on (self.device.application.multicast), whatever local it is held in
+    for meth, call in (("add_to_group", "self.device.application.multicast.subscribe"), ("remove_from_group", "self.device.application.multicast.unsubscribe")):
         f = repo.func(f"{dev}:EZSPEndpoint.{meth}")
         ctx.fn(f)
         # Multicast.subscribe / unsubscribe hand back the NCP's raw status: the legacy success code below v14, the unified one from v14
@@ -285,7 +286,7 @@ def r15_6(ctx):
                 facts={"(grp_id in self.member_of)": meth == "remove_from_group"})
         c = repo.cls(dev, "EZSPEndpoint")
         for p in px.explore(f, lambda: (self_obj(c, {}), {"grp_id": Sym("grp_id"), **({"name": None} if meth == "add_to_group" else {})})):
-            aw = [e for e in p.events if e.kind == "await" and e.what == call]
+            aw = [e for e in p.events if e.kind == "await" and (e.what == call or e.callee == call)]
             if not aw:
                 raise AnalysisError(f"{meth}: no call of {call}")
             okst = is_ok(ctx, aw[0].extra)
